@@ -59,6 +59,7 @@ MODELS = {
     "sphere": "sphere", "cylinder": "cylinder", "core_multi_shell": "core_multi_shell",
     "hardsphere": "hardsphere", "sphere@hardsphere": "sphere@hardsphere",
     "sphere@hayter_msa": "sphere@hayter_msa",
+    "hayter_msa": "hayter_msa",
     "sphere+cylinder": "sphere+cylinder", "sphere*cylinder": "sphere*cylinder",
     "broad_peak": "broad_peak", "_spherepy": "_spherepy",
     "pyplug": os.path.join(ASSETS, "pyplug.py"), "allpd": os.path.join(ASSETS, "allpd.py"),
@@ -110,6 +111,11 @@ PARS = {
         "pd": {"radius_pd": 0.1, "radius_pd_n": 6, "volfraction": 0.25},
         "beta": {"structure_factor_mode": 1, "radius_pd": 0.1, "radius_pd_n": 6},
         "reff": {"radius_effective_mode": 1, "radius_pd": 0.2, "radius_pd_n": 5, "radius": 35.0},
+    },
+    "hayter_msa": {
+        "def": {},
+        "pd": {"radius_effective": 45.0, "radius_effective_pd": 0.2, "radius_effective_pd_n": 6},
+        "vf": {"volfraction": 0.3, "charge": 40.0},
     },
     "sphere@hayter_msa": {
         # a structure factor whose own effective radius can be dispersed (mode 0: taken from S, not from P)
@@ -197,7 +203,8 @@ def _add_variants():
 _add_variants()
 CUTOFFS = [0.0, 0.0, 1e-5, 1e-3]
 DATA_KINDS = ["perfect", "pinhole", "slit", "2d", "sesans", "sesans_tight"]
-SV_MODELS = ["sphere", "cylinder", "core_multi_shell", "sphere@hardsphere", "sphere@hayter_msa", "hardsphere", "broad_peak", "pyscalar",
+SV_MODELS = ["sphere", "cylinder", "core_multi_shell", "sphere@hardsphere", "sphere@hayter_msa", "hardsphere", "hayter_msa",
+             "broad_peak", "pyscalar",
              "pyplug", "allpd"]
 SV_SET = {
     "sphere": [("radius", 80.0), ("scale", 0.3), ("background", 0.05), ("sld", 2.0), ("sld_M0", 4.0)],
@@ -206,6 +213,8 @@ SV_SET = {
     "sphere@hardsphere": [("radius", 45.0), ("volfraction", 0.3), ("structure_factor_mode", 1),
                           ("radius_effective_mode", 1)],
     "hardsphere": [("volfraction", 0.1), ("radius_effective", 25.0)],
+    "hayter_msa": [("volfraction", 0.1), ("radius_effective", 45.0), ("radius_effective.width", 0.2),
+                   ("radius_effective.npts", 6), ("charge", 30.0)],
     "sphere@hayter_msa": [("radius_effective_mode", 0), ("radius_effective", 45.0), ("radius_effective.width", 0.2),
                           ("radius_effective.npts", 6), ("charge", 30.0), ("volfraction", 0.1)],
     "broad_peak": [("peak_pos", 0.08), ("porod_exp", 2.5)],
@@ -339,6 +348,7 @@ def _make_data(kind):
 
 _DCACHE = {}
 _ACACHE = {}
+_PCACHE = {}
 
 
 def _new_data(kind):
@@ -401,13 +411,25 @@ def _sv_apply(inst, cfgop):
     elif cfgop[0] == "disp":
         _, par, dtype, npts, width = cfgop
         from sasmodels import weights
-        disp = weights.MODELS[dtype]()
+        # the disperser is a caller-owned object too: one per distribution type and
+        # process, handed to every instance that wants that distribution
+        owner = os.getpid()
+        if _PCACHE.get("owner") != owner:
+            _PCACHE.clear()
+            _PCACHE["owner"] = owner
+        disp = _PCACHE.setdefault(dtype, weights.MODELS[dtype]())
         inst.set_dispersion(par, disp)
         inst.setParam(par + ".npts", npts)
         inst.setParam(par + ".width", width)
 
 
 def _sv_new(state, name):
+    if name.startswith("mult:"):
+        # a product built the way SasView does it: from a form-factor instance and a
+        # structure-factor instance, i.e. from the model definitions those classes hold
+        from sasmodels import sasview_model
+        pname, sname = name[5:].split("|")
+        return sasview_model.MultiplicationModel(_sv_new(state, pname), _sv_new(state, sname))
     cls = _sv_class(state, name)
     if name == "core_multi_shell":
         return cls(multiplicity=4)
@@ -436,7 +458,7 @@ def _evaluate(state, fn, args_for_snapshot):
     if detail is None:
         for label, obj, pristine in _caller_objects(state):
             if _snap(obj) != pristine:
-                detail = "caller-owned %s, not an argument of this call, was modified by it" % label
+                detail = "caller-owned %s, not an argument of this call, is no longer what the caller made it (found after this call)" % label
                 break
     # results handed to the caller earlier must not change under later calls
     held = state.setdefault("held", [])
@@ -467,6 +489,9 @@ def _caller_objects(state):
         if key != "owner":
             found.append(("distribution table values %s" % key[0], pair[0]))
             found.append(("distribution table weights %s" % key[0], pair[1]))
+    for dtype_, disp in _PCACHE.items():
+        if dtype_ != "owner":
+            found.append(("disperser object %s" % dtype_, disp))
     for (model, key), d in state.get("pars", {}).items():
         found.append(("parameter dict %s/%s" % (model, key), d))
     out = []
@@ -540,9 +565,13 @@ def eval_request(state, req):
     if kind == "conv":
         return _conv_eval(state, req["model"], req["fnc"], req["q"], req["pars"], req["res"])
     if kind == "sv":
-        inst = _sv_new(state, req["model"])
-        for c in req["config"]:
-            _sv_apply(inst, c)
+        try:
+            inst = _sv_new(state, req["model"])
+            for c in req["config"]:
+                _sv_apply(inst, c)
+        except Exception as exc:
+            # building or configuring the instance is refused: that is the request's (legal) outcome
+            return {"result": ("exc", type(exc).__name__, str(exc)[:200]), "args_changed": None, "overwritten": None}
         return _sv_eval(state, inst, req["q"], req["fn"])
     raise ValueError(kind)
 
@@ -632,6 +661,8 @@ def child_handler(state, cmd):
             _sv_apply(objs[op["s"]], ("disp", op["par"], op["type"], op["npts"], op["width"]))
         elif kind == "sv_array":
             _sv_apply(objs[op["s"]], ("array", op["par"], op["values"], op["weights"]))
+        elif kind == "sv_mult":
+            objs[op["id"]] = sasview_model.MultiplicationModel(objs[op["p"]], objs[op["s"]])
         elif kind == "sv_clone":
             objs[op["id"]] = objs[op["s"]].clone()
         elif kind == "sv_eval":
@@ -765,6 +796,12 @@ def run_history(cfg, keep_events=False):
                 objs[op["id"]] = {"type": "direct", "m": op["m"], "data": op["data"], "cutoff": op["cutoff"]}
             elif kind == "sv_new":
                 objs[op["id"]] = {"type": "sv", "model": op["model"], "config": []}
+            elif kind == "sv_mult":
+                if op["p"] not in objs or op["s"] not in objs:
+                    continue
+                objs[op["id"]] = {"type": "sv", "config": [],
+                                  "model": "mult:%s|%s" % (objs[op["p"]]["model"], objs[op["s"]]["model"])}
+                probe("product_built_from_two_instances")
             elif kind == "sv_clone":
                 if op["s"] not in objs:
                     continue
@@ -794,6 +831,11 @@ def run_history(cfg, keep_events=False):
                                    "detail": "the process died (wait status %r) executing %s" % (payload, kind)})
                 session = None
                 break
+            if payload.get("state_op") and payload.get("raised") and kind in ("sv_set", "sv_disp", "sv_array"):
+                # refused configuration: what (if anything) was applied is unknown, so this
+                # instance is not evaluated any more (its clones made earlier are unaffected)
+                objs.pop(op["s"], None)
+                probe("instance_retired_after_refused_configuration")
             if payload.get("state_op"):
                 if payload.get("args_changed"):
                     violations.append({"inv": "H2", "op": i, "kind": kind, "model": op.get("model"),
@@ -990,6 +1032,9 @@ def gen_history(w, n_ops):
             s = w.choice(svs) if svs and w.random() < 0.75 else add_sv()
             rr = w.random()
             name = s["model"]
+            if name.startswith("mult:"):
+                alt = name[5:].replace("|", "@")
+                name = alt if alt in SV_SET else name[5:].split("|")[0]
             if rr < 0.25 and SV_SET.get(name):
                 nm, val = w.choice(SV_SET[name])
                 ops.append({"op": "sv_set", "s": s["id"], "name": nm, "value": val})
@@ -999,6 +1044,17 @@ def gen_history(w, n_ops):
             elif rr < 0.46 and SV_ARRAY.get(name):
                 par, vals, wts = w.choice(SV_ARRAY[name])
                 ops.append({"op": "sv_array", "s": s["id"], "par": par, "values": vals, "weights": wts})
+            elif rr < 0.50 and name in ("sphere", "cylinder", "pyplug"):
+                # SasView's P*S: a product instance built from this instance and a structure-factor instance
+                sf = next((x for x in svs if x["model"] in ("hayter_msa", "hardsphere")), None)
+                if sf is None:
+                    sf = {"op": "sv_new", "id": new_id("s"), "model": w.choice(["hayter_msa", "hardsphere"])}
+                    ops.append(sf)
+                    svs.append(sf)
+                op = {"op": "sv_mult", "id": new_id("s"), "p": s["id"], "s": sf["id"],
+                      "model": "mult:%s|%s" % (name, sf["model"])}
+                ops.append(op)
+                svs.append(op)
             elif rr < 0.54:
                 op = {"op": "sv_clone", "id": new_id("s"), "s": s["id"], "model": name}
                 ops.append(op)
@@ -1077,6 +1133,23 @@ def sweep_configs(tier):
         for did in ids:
             ops.append({"op": "direct_call", "d": did, "model": model, "pars": pk[0]})
         out.append({"kind": "history", "ops": ops, "recheck_seed": 3, "family": "calculators_over_data_kinds"})
+    # SasView's P*S built from two instances, then the structure factor on its own again
+    for sf, wname in (("hayter_msa", "radius_effective"), ("hardsphere", None)):
+        ev = {"op": "sv_eval", "q": "q3", "fn": "evalDistribution"}
+        ops = [{"op": "sv_new", "id": "s1", "model": sf}]
+        if wname:
+            ops += [{"op": "sv_set", "s": "s1", "name": wname + ".width", "value": 0.2},
+                    {"op": "sv_set", "s": "s1", "name": wname + ".npts", "value": 6}]
+        ops += [dict(ev, s="s1"), {"op": "sv_new", "id": "s2", "model": "sphere"},
+                {"op": "sv_mult", "id": "s3", "p": "s2", "s": "s1", "model": "mult:sphere|" + sf},
+                dict(ev, s="s3"), dict(ev, s="s1"),
+                {"op": "sv_clone", "id": "s4", "s": "s1", "model": sf}, dict(ev, s="s4"),
+                {"op": "sv_new", "id": "s5", "model": sf}]
+        if wname:
+            ops += [{"op": "sv_set", "s": "s5", "name": wname + ".width", "value": 0.3},
+                    {"op": "sv_set", "s": "s5", "name": wname + ".npts", "value": 5}]
+        ops += [dict(ev, s="s5"), {"op": "sv_set", "s": "s3", "name": "radius", "value": 42.0}, dict(ev, s="s3")]
+        out.append({"kind": "history", "ops": ops, "recheck_seed": 5, "family": "product_from_two_instances"})
     # sibling instances: clone, change one of the two, evaluate the other (every
     # configuration operation of the pool, both directions)
     for model in ("sphere", "cylinder", "pyplug", "allpd", "sphere@hayter_msa", "core_multi_shell"):
